@@ -36,10 +36,22 @@ type Contract struct {
 	Ensures  []*Clause
 	Modifies []*Clause
 	Loops    map[int]*LoopContract
+	Unlocks  []UnlockClause // obligations at the n-th Unlock/Wait site of the function
 	Decreases *Clause // termination measure for (mutually) recursive functions
 	Ghosts   []SpecParam // ghost parameters (universally quantified in the callee, bound by unique type match at call sites)
 	Line     int
 	Trusted  bool // contract assumed, body not verified
+}
+
+type UnlockClause struct {
+	Ord int
+	C   *Clause
+}
+
+type GuardedSpec struct {
+	Key    string
+	Fields []string
+	Inv    []*Clause
 }
 
 type SpecParam struct{ Name, Type string }
@@ -73,6 +85,7 @@ type ContractFile struct {
 	Lemmas    map[string]*Lemma
 	LemmaOrd  []string
 	Immutable []string // "<Type>.<field>[.<sub>]": fields written only at construction
+	Guarded  []*GuardedSpec
 	GhostVars map[string]string // ghost globals: name -> type
 	AssumedInvs []*Clause // closed formulas assumed in every state at cut points (trusted data-structure invariants)
 	NonNilMaps []string // map types whose values are never nil (checked at every MapUpdate under contract, assumed at reads)
@@ -123,10 +136,11 @@ func parseContractFile(path string) (*ContractFile, error) {
 	var blocks []*block
 	var cur *block
 	var pendingInv *Clause
+	var lockInvs []*Clause
 	sc := bufio.NewScanner(f)
 	sc.Buffer(make([]byte, 1<<20), 1<<20)
 	ln := 0
-	kwRe := regexp.MustCompile(`^(props|overflow|requires|ensures|modifies|loop|trusted|attr|induction|ghost|decreases)\b\s*(.*)$`)
+	kwRe := regexp.MustCompile(`^(props|overflow|requires|ensures|modifies|loop|trusted|attr|induction|ghost|decreases|unlock)\b\s*(.*)$`)
 	for sc.Scan() {
 		ln++
 		line := strings.TrimSpace(sc.Text())
@@ -138,6 +152,31 @@ func parseContractFile(path string) (*ContractFile, error) {
 			body = strings.TrimSpace(body[:i])
 		}
 		if body == "" {
+			continue
+		}
+		if strings.HasPrefix(body, "guarded ") {
+			rest := strings.TrimPrefix(body, "guarded ")
+			kv := strings.SplitN(rest, ":", 2)
+			if len(kv) == 2 {
+				g := &GuardedSpec{Key: strings.TrimSpace(kv[0])}
+				for _, f := range splitTopComma(kv[1]) {
+					g.Fields = append(g.Fields, f)
+				}
+				cf.Guarded = append(cf.Guarded, g)
+			}
+			cur = nil
+			pendingInv = nil
+			continue
+		}
+		if strings.HasPrefix(body, "lock-invariant ") {
+			rest := strings.TrimPrefix(body, "lock-invariant ")
+			kv := strings.SplitN(rest, ":", 2)
+			if len(kv) == 2 {
+				pendingInv = &Clause{Src: strings.TrimSpace(kv[1]), Line: ln}
+				cf.Guarded = append(cf.Guarded, &GuardedSpec{Key: strings.TrimSpace(kv[0]), Inv: []*Clause{pendingInv}})
+				lockInvs = append(lockInvs, pendingInv)
+			}
+			cur = nil
 			continue
 		}
 		if strings.HasPrefix(body, "ghost var ") {
@@ -158,7 +197,7 @@ func parseContractFile(path string) (*ContractFile, error) {
 			cur = nil
 			continue
 		}
-		if cur == nil && pendingInv != nil && !strings.HasPrefix(body, "func ") && !strings.HasPrefix(body, "pure ") && !strings.HasPrefix(body, "lemma ") && !strings.HasPrefix(body, "immutable ") && !strings.HasPrefix(body, "nonnil-values ") {
+		if cur == nil && pendingInv != nil && !strings.HasPrefix(body, "func ") && !strings.HasPrefix(body, "pure ") && !strings.HasPrefix(body, "lemma ") && !strings.HasPrefix(body, "immutable ") && !strings.HasPrefix(body, "nonnil-values ") && !strings.HasPrefix(body, "guarded ") && !strings.HasPrefix(body, "lock-invariant ") && !strings.HasPrefix(body, "ghost var ") {
 			pendingInv.Src += " " + body
 			continue
 		}
@@ -212,6 +251,17 @@ func parseContractFile(path string) (*ContractFile, error) {
 		}
 		c.E = e
 		return c, nil
+	}
+	for _, inv := range lockInvs {
+		if m := regexp.MustCompile(`^@(\w+)\s+(.*)$`).FindStringSubmatch(inv.Src); m != nil {
+			inv.Label = m[1]
+			inv.Src = m[2]
+		}
+		e, err := parseCExpr(inv.Src)
+		if err != nil {
+			return nil, fmt.Errorf("%s:%d: %v", path, inv.Line, err)
+		}
+		inv.E = e
 	}
 	for _, inv := range cf.AssumedInvs {
 		src := inv.Src
@@ -321,6 +371,17 @@ func parseContractFile(path string) (*ContractFile, error) {
 				case "trusted":
 					c.Trusted = true
 					c.Attrs["trusted"] = strings.TrimSpace(rc.text)
+				case "unlock":
+					m := regexp.MustCompile(`^(\d+)\s*:\s*(.*)$`).FindStringSubmatch(rc.text)
+					if m == nil {
+						return nil, fmt.Errorf("%s:%d: bad unlock clause (want `unlock <n>: expr`)", path, rc.line)
+					}
+					n, _ := strconv.Atoi(m[1])
+					cl, err := mkClause(m[2], rc.line)
+					if err != nil {
+						return nil, err
+					}
+					c.Unlocks = append(c.Unlocks, UnlockClause{Ord: n, C: cl})
 				case "decreases":
 					cl, err := mkClause(rc.text, rc.line)
 					if err != nil {
